@@ -10,6 +10,7 @@ import (
 	"regexp"
 	"sort"
 	"strings"
+	"sync"
 	"testing"
 	"time"
 
@@ -121,6 +122,142 @@ func c30Ext(ts bool) conf.RecordFormat {
 	return conf.RecordFormatFMP4
 }
 
+// ---------------------------------------------------------------------------------------------
+// Driving one cleaning pass.
+//
+// The Cleaner is created the way core creates it: exported fields, then Initialize() (which sets up the private state
+// and starts the run loop). The run loop performs a pass of its own right away; it is made harmless by giving it a clock
+// (Unix 0) at which no generated segment can be expired, and ReloadPathConfs (exported, handled by the same loop after
+// that pass) is used to wait for it. Then the clock is set to the case's `now` and exactly ONE pass is run in the calling
+// goroutine through doRun(), so that the verdict is about one complete pass; Close() ends the loop (its next timed pass
+// would be >= 5 s later). Nothing relies on the state of an un-initialized Cleaner.
+// c30Calibrate compares this driver with a Cleaner used through its exported API only.
+// ---------------------------------------------------------------------------------------------
+
+// c30Pass runs one pass over pathConfs at instant now. It leaves timeNow set to now (callers restore it).
+func c30Pass(pathConfs map[string]*conf.Path, now time.Time) {
+	timeNow = func() time.Time { return time.Unix(0, 0) }
+	c := &Cleaner{PathConfs: pathConfs, Parent: test.NilLogger}
+	c.Initialize()
+	defer c.Close()
+	c.ReloadPathConfs(pathConfs)
+	timeNow = func() time.Time { return now }
+	c.doRun()
+}
+
+var (
+	c30CalOnce sync.Once
+	c30CalErr  error
+)
+
+type c30TB interface {
+	Fatalf(format string, args ...any)
+}
+
+func c30Inconclusive(t c30TB, format string, args ...any) {
+	msg := fmt.Sprintf(format, args...)
+	fmt.Println("VERIF-INCONCLUSIVE: " + msg)
+	t.Fatalf("VERIF-INCONCLUSIVE: %s", msg)
+}
+
+// c30Calibrate must be called at the start of every test function. It builds one small tree twice (a path with
+// retention holding an expired and a fresh segment and a foreign file, a path without retention holding an old segment)
+// and cleans it (i) through the exported API only: Initialize(), wait (bounded) for the first pass to show its effect,
+// Close(); (ii) with c30Pass. A panic in (ii) or a different outcome means that the DRIVER of this check does not fit
+// the implementation any more: VERIF-INCONCLUSIVE. What (i) does is not judged here.
+func c30Calibrate(t c30TB) {
+	c30CalOnce.Do(func() { c30CalErr = c30CalibrateOnce() })
+	if c30CalErr != nil {
+		c30Inconclusive(t, "calibration: %v", c30CalErr)
+	}
+}
+
+func c30CalibrateOnce() (err error) {
+	oldNow := timeNow
+	defer func() { timeNow = oldNow }()
+	now := time.Date(2024, 5, 20, 22, 15, 25, 0, time.Local)
+	names := []string{
+		"cam/2024-05-18_10-00-00-000000.mp4", // expired
+		"cam/2024-05-20_21-00-00-000000.mp4", // fresh
+		"cam/notes.txt",
+		"other/2020-01-01_00-00-00-000000.mp4", // no retention
+	}
+	build := func() (string, map[string]*conf.Path, error) {
+		dir, err := os.MkdirTemp(c30Scratch(), "c30cal-")
+		if err != nil {
+			return "", nil, err
+		}
+		for _, n := range names {
+			p := filepath.Join(dir, n)
+			if err := os.MkdirAll(filepath.Dir(p), 0o755); err != nil {
+				return dir, nil, err
+			}
+			if err := os.WriteFile(p, []byte{1}, 0o644); err != nil {
+				return dir, nil, err
+			}
+		}
+		return dir, map[string]*conf.Path{
+			"cam": {Name: "cam", RecordPath: filepath.Join(dir, "%path/%Y-%m-%d_%H-%M-%S-%f"),
+				RecordFormat: conf.RecordFormatFMP4, RecordDeleteAfter: conf.Duration(24 * time.Hour)},
+			"other": {Name: "other", RecordPath: filepath.Join(dir, "%path/%Y-%m-%d_%H-%M-%S-%f"),
+				RecordFormat: conf.RecordFormatFMP4},
+		}, nil
+	}
+	snapshot := func(dir string) string {
+		var left []string
+		for _, n := range names {
+			if _, err := os.Lstat(filepath.Join(dir, n)); err == nil {
+				left = append(left, n)
+			}
+		}
+		return strings.Join(left, " ")
+	}
+
+	// (i) exported API only
+	dirA, confsA, err := build()
+	if dirA != "" {
+		defer os.RemoveAll(dirA)
+	}
+	if err != nil {
+		return err
+	}
+	timeNow = func() time.Time { return now }
+	ca := &Cleaner{PathConfs: confsA, Parent: test.NilLogger}
+	ca.Initialize()
+	for deadline := time.Now().Add(10 * time.Second); time.Now().Before(deadline); time.Sleep(2 * time.Millisecond) {
+		if _, err := os.Lstat(filepath.Join(dirA, names[0])); err != nil {
+			break
+		}
+	}
+	ca.Close()
+	viaAPI := snapshot(dirA)
+
+	// (ii) the driver of this check
+	dirB, confsB, err := build()
+	if dirB != "" {
+		defer os.RemoveAll(dirB)
+	}
+	if err != nil {
+		return err
+	}
+	func() {
+		defer func() {
+			if r := recover(); r != nil {
+				err = fmt.Errorf("the Cleaner cannot be driven by Initialize() + ReloadPathConfs() + doRun() any more: panic: %v", r)
+			}
+		}()
+		c30Pass(confsB, now)
+	}()
+	if err != nil {
+		return err
+	}
+	if direct := snapshot(dirB); direct != viaAPI {
+		return fmt.Errorf("a pass driven by the harness leaves [%s], the pass run by Initialize() leaves [%s]: "+
+			"the driver does not behave like the exported API", direct, viaAPI)
+	}
+	return nil
+}
+
 var c30Deltas = []time.Duration{
 	time.Microsecond, time.Millisecond, time.Second, 59 * time.Second, time.Hour, 25 * time.Hour, 400 * 24 * time.Hour,
 }
@@ -136,6 +273,8 @@ func TestVerifC30Retention(t *testing.T) {
 	if kit.Thorough() {
 		maxFiles = 16
 	}
+
+	c30Calibrate(t)
 
 	rapid.Check(t, func(t *rapid.T) {
 		dir, err := os.MkdirTemp(c30Scratch(), "c30-")
@@ -436,8 +575,7 @@ func TestVerifC30Retention(t *testing.T) {
 		desc := sb.String()
 
 		// --- run one cleaning pass ---
-		c := &Cleaner{PathConfs: pathConfs, Parent: test.NilLogger}
-		c.doRun()
+		c30Pass(pathConfs, now)
 
 		// --- verdict ---
 		nDel, nKeptSeg := 0, 0
@@ -493,8 +631,8 @@ func TestVerifC30Retention(t *testing.T) {
 // ---------------------------------------------------------------------------------------------
 
 func c30RegressRun(t *testing.T, confs func(dir string) map[string]*conf.Path, create []string) (string, func(string) bool) {
+	c30Calibrate(t)
 	oldNow := timeNow
-	timeNow = func() time.Time { return time.Date(2024, 5, 20, 22, 15, 25, 0, time.Local) }
 	t.Cleanup(func() { timeNow = oldNow })
 	dir := t.TempDir()
 	for _, f := range create {
@@ -506,8 +644,7 @@ func c30RegressRun(t *testing.T, confs func(dir string) map[string]*conf.Path, c
 			t.Fatal(err)
 		}
 	}
-	c := &Cleaner{PathConfs: confs(dir), Parent: test.NilLogger}
-	c.doRun()
+	c30Pass(confs(dir), time.Date(2024, 5, 20, 22, 15, 25, 0, time.Local))
 	return dir, func(f string) bool {
 		_, err := os.Stat(filepath.Join(dir, f))
 		return err == nil
@@ -547,8 +684,8 @@ func TestVerifC30RegressPrefixed(t *testing.T) {
 	// a backup copy that preserved the absolute name below the record directory:
 	// <dir>/cam/backup/<dir>/cam/<segment> contains "<dir>/cam/<segment>" but is not a segment of "cam"
 	var nested string
+	c30Calibrate(t)
 	oldNow := timeNow
-	timeNow = func() time.Time { return time.Date(2024, 5, 20, 22, 15, 25, 0, time.Local) }
 	t.Cleanup(func() { timeNow = oldNow })
 	dir := t.TempDir()
 	nested = filepath.Join(dir, "cam", "backup", dir, "cam", "2023-01-02_03-04-05-000006.mp4")
@@ -561,18 +698,14 @@ func TestVerifC30RegressPrefixed(t *testing.T) {
 			t.Fatal(err)
 		}
 	}
-	c := &Cleaner{
-		PathConfs: map[string]*conf.Path{
-			"cam": {
-				Name:              "cam",
-				RecordPath:        filepath.Join(dir, "%path/%Y-%m-%d_%H-%M-%S-%f"),
-				RecordFormat:      conf.RecordFormatFMP4,
-				RecordDeleteAfter: conf.Duration(24 * time.Hour),
-			},
+	c30Pass(map[string]*conf.Path{
+		"cam": {
+			Name:              "cam",
+			RecordPath:        filepath.Join(dir, "%path/%Y-%m-%d_%H-%M-%S-%f"),
+			RecordFormat:      conf.RecordFormatFMP4,
+			RecordDeleteAfter: conf.Duration(24 * time.Hour),
 		},
-		Parent: test.NilLogger,
-	}
-	c.doRun()
+	}, time.Date(2024, 5, 20, 22, 15, 25, 0, time.Local))
 	if _, err := os.Stat(real); err == nil {
 		t.Errorf("VIOLATION: expired segment not deleted")
 	}
